@@ -250,6 +250,7 @@ def corpus():
         ("gm", 2, 4, 0, 1, ["R3,0,1"], ()),                              # a255301: same dim, other covariance size
         ("gm", 2, 2, 0, 0, ["F1", "Aq0", "Aq1"], ((1, 1), (2, 2))),      # 9b0609f: second augmentation
         ("pset", 2, 2, 0, 0, ["F1", "Aq0", "R3,3,0"], ((1, 1),)),        # 28573a1: particle states not augmented
+        ("gm", 3, 2, 0, 0, ["F1", "Aq0"], ((1, 1),)),                    # three components: relocation order matters
         ("gm", 2, 2, 0, 0, ["F1", "R3,2,0"], ()),                        # only the component count: survivors kept
         ("gm", 3, 2, 1, 1, ["F1", "R2,2,1"], ()),                        # shrinking, quaternion layout
         ("gm", 2, 3, 0, 0, ["F1", "R3,2,0"], ()),                        # other shape, same number of cells: buffer kept
